@@ -17,22 +17,28 @@
                                                               buffer), open_existing_for_read_write, open_fresh_for_read_write
                                                               (start of the history; append = cursor at the end),
                                                               written_bytes_are_read_back, write_changes_nothing_else
-     ... copy / rename                                        copy_carries_the_bytes, rename_carries_the_node
-   failed operations leave no new files behind                failed_open_changes_nothing, failed_rename_changes_nothing,
-                                                              failed_copy_leaves_no_new_name
-   create makes all missing parents, true iff exists after    create_true_iff_exists_after, create_true_means_exists,
-                                                              create_makes_all_parents, create_keeps_what_was_there
+     ... copy / rename                                        copy_carries_the_bytes (exact state afterwards, for every outcome
+                                                              of the kernel's transfer calls), copy_leaves_the_rest,
+                                                              rename_carries_the_node (exact state afterwards)
+   failed operations report failure without leaving           failed_open_changes_nothing, failed_rename_changes_nothing,
+     new files behind                                         rename_of_missing_source_fails, failed_copy_changes_nothing
+                                                              (transfers complete), failed_copy_touches_only_destination and
+                                                              failed_copy_leaves_no_new_name (any transfer outcome)
+   create makes all missing parents, true iff exists after    create_succeeds (exact tree afterwards), create_true_iff_exists_after,
+                                                              create_true_means_exists, create_makes_all_parents,
+                                                              create_keeps_what_was_there
    recursive unlink removes exactly the given tree,           recursive_unlink_removes_exactly_subtree, cut_out_is_exact,
      never following symbolic links out of it                 unlink_never_follows_a_link, unlink_nonrecursive_keeps_contents
    (the hypothesis `well-formed tree` of the unlink theorem)  reachable_states_are_well_formed
-   Not covered by a theorem (correspondence only): paths through '.', '..' or symbolic links for
-   unlink (the theorem is for texts of proper names through real directories; create / exists /
-   rename / copy / open theorems hold for every path text); a second handle on the same file;
-   write-only / read-only handles; File::unlink, createSymbolicLink (single system calls).
+   Not covered by a theorem (correspondence and the text judge of checks/C19.py only): paths through
+   '.', '..' or symbolic links for unlink and for create_succeeds (those theorems are for texts of
+   proper names through real directories; exists / rename / copy / open theorems and the other create
+   theorems hold for every path text); a second handle on the same file; write-only / read-only
+   handles; File::unlink, createSymbolicLink (single system calls).
 *)
 From Coq Require Import ZArith List Bool.
 From Path Require Import PathSpec PathModel PathProofs RelProofs.
-From Path Require Import FsSpec FsModel FsTree FsWalk FsFile FsDir FsCreate FsMove FsCopy FsWf.
+From Path Require Import FsSpec FsModel FsTree FsWalk FsFile FsDir FsCreate FsMkdirs FsMove FsCopy FsWf.
 Import ListNotations.
 Local Open Scope Z_scope.
 
@@ -276,6 +282,19 @@ Theorem create_makes_all_parents : forall fuel st dir st' pre rest,
 Proof. exact create_makes_parents. Qed.
 Print Assumptions create_makes_all_parents.
 
+(* create makes all missing parents: for a text of plain names (proper names without a separator
+   of either kind) of which `names` lead from the current directory through real directories and
+   the first of `rest` does not exist there, the answer is true and the tree afterwards is the tree
+   before with exactly the chain of new empty directories added (nothing when rest is empty) *)
+Theorem create_succeeds : forall st names rest es,
+  Forall plain_name (names ++ rest) -> names ++ rest <> [] ->
+  get (root st) (cwd st ++ names) = Some (NDir es) ->
+  match rest with [] => True | c :: _ => get (root st) ((cwd st ++ names) ++ [c]) = None end ->
+  d_create (create_fuel (join (names ++ rest))) st (join (names ++ rest))
+  = (set_root st (add_chain (root st) (cwd st ++ names) rest), true).
+Proof. exact create_succeeds_l. Qed.
+Print Assumptions create_succeeds.
+
 Theorem create_keeps_what_was_there : forall fuel st dir st' b q k,
   d_create fuel st dir = (st', b) -> sget (root st) q = Some k -> sget (root st') q = Some k.
 Proof. exact create_keeps. Qed.
@@ -360,6 +379,15 @@ Example ex_create :
   let (st', ok) := d_create (create_fuel [120;47;121;47;122]) demo [120;47;121;47;122] in
   ok = true /\ d_exists st' [120;47;121;47;122] = true /\ d_exists st' [120;47;121] = true /\ d_exists st' [120] = true.
 Proof. vm_compute. repeat split; reflexivity. Qed.
+(* the hypotheses of create_succeeds for "a/x/y/z" in demo: a exists, a/x does not *)
+Example ex_create_succeeds_hypotheses :
+  Forall plain_name ([[97]] ++ [[120]; [121]; [122]]) /\
+  (exists es, get (root demo) (cwd demo ++ [[97]]) = Some (NDir es)) /\
+  get (root demo) ((cwd demo ++ [[97]]) ++ [[120]]) = None /\
+  get (add_chain (root demo) (cwd demo ++ [[97]]) [[120]; [121]; [122]]) (cwd demo ++ [[97]; [120]; [121]; [122]]) = Some (NDir []).
+Proof.
+  split; [repeat constructor|]. split; [eexists; vm_compute; reflexivity|]. split; vm_compute; reflexivity.
+Qed.
 Example ex_create_fails :
   d_create (create_fuel [104;47;120]) demo [104;47;120] = (demo, false) /\ d_exists demo [104;47;120] = false.
 Proof. vm_compute. split; reflexivity. Qed.
